@@ -29,6 +29,11 @@ def shared(f):
     return _SHARED[key]
 
 
+# bodies that feed characters to BufferParser::print_char in a loop: between two iterations the cursor is whatever the
+# previous print_char left (C09's guarantee applies at each iteration, not only at function entry)
+DRIVERS = {"formats::parse_with_parser", "parsers::ansi::Parser::invoke_macro_by_id"}
+
+
 def buffer_param(b, f):
     for i in range(1, b.argc + 1):
         s = b.tys(i)
@@ -69,6 +74,105 @@ def trusted_constraint(b, f, con):
         if a[2] - bb[2] <= c:
             return "T5"
     return None
+
+
+def regex_groups(pattern):
+    """for each capturing group index (1-based): True if the group participates in every match
+    (neither it nor an enclosing group is optional / repeated-from-zero / inside an alternation)"""
+    res = {}
+    stack = []          # (group index or None, start position, had alternation)
+    alt_levels = [False]
+    n = 0
+    i = 0
+    L = len(pattern)
+    closed = []         # (index, optional flag, enclosing indices)
+    in_class = False
+    while i < L:
+        ch = pattern[i]
+        if ch == "\\":
+            i += 2
+            continue
+        if in_class:
+            if ch == "]":
+                in_class = False
+            i += 1
+            continue
+        if ch == "[":
+            in_class = True
+        elif ch == "(":
+            cap = not pattern.startswith("(?", i) or pattern.startswith("(?P<", i) or pattern.startswith("(?<", i) and not pattern.startswith("(?<=", i) and not pattern.startswith("(?<!", i)
+            idx = None
+            if cap:
+                n += 1
+                idx = n
+            stack.append([idx, [x[0] for x in stack if x[0] is not None]])
+            alt_levels.append(False)
+        elif ch == ")":
+            if not stack:
+                return None
+            idx, encl = stack.pop()
+            had_alt = alt_levels.pop()
+            opt = False
+            j = i + 1
+            if j < L and (pattern[j] in "?*" or pattern.startswith("{0", j)):
+                opt = True
+            closed.append((idx, opt, encl, had_alt))
+        elif ch == "|":
+            alt_levels[-1] = True
+        i += 1
+    if stack:
+        return None
+    top_alt = alt_levels[0]
+    optional_groups = {idx for idx, opt, encl, ha in closed if opt and idx is not None}
+    # groups (capturing or not) that are optional make everything inside optional: recompute by nesting
+    # (closed records only capture indices of enclosing *capturing* groups; non-capturing optional groups are handled conservatively)
+    noncap_optional = any(opt for idx, opt, encl, ha in closed if idx is None)
+    for idx, opt, encl, ha in closed:
+        if idx is None:
+            continue
+        always = not opt and not top_alt and not noncap_optional
+        for e in encl:
+            if e in optional_groups:
+                always = False
+        # a group inside an alternation of an enclosing group may not participate
+        for idx2, opt2, encl2, ha2 in closed:
+            if idx2 is not None and idx2 in encl and ha2:
+                always = False
+        res[idx] = always
+    return res
+
+
+def _regex_literal(body):
+    """the string literal passed to the single Regex::new call of a lazy-static initialiser, or None"""
+    from analysis.expr import ExprBuilder
+    eb = ExprBuilder(body)
+    pats = []
+    for _, t in body.calls():
+        if (t["callee"].get("resolved") or "") == "regex::Regex::new":
+            e = eb.operand(t["args"][0])
+            while e[0] in ("ref", "deref"):
+                e = e[1]
+            pats.append(e[1] if e[0] == "str" else None)
+    if len(pats) == 1:
+        return pats[0]
+    return None
+
+
+def regex_statics_in(f, body):
+    """regex lazy statics whose captures / captures_iter / is_match … are used in the body -> {static name: pattern}"""
+    out = {}
+    for bi, t in body.calls():
+        c = t["callee"]
+        res = c.get("resolved") or ""
+        if res.endswith("as std::ops::Deref>::deref") and res.startswith("<") and "::" in res:
+            name = res[1:].split(" as ")[0]
+            init = f.bodies.get("<%s as std::ops::Deref>::deref::__static_ref_initialize" % name)
+            if init is None:
+                continue
+            pat = _regex_literal(init)
+            if pat is not None:
+                out[name] = pat
+    return out
 
 
 def run_scope(chk, scope, roots, floor_roots, floor_bodies, floor_sinks, reviewed_file, trust_caret=True, extra_known_roots=()):
@@ -115,10 +219,12 @@ def run_scope(chk, scope, roots, floor_roots, floor_bodies, floor_sinks, reviewe
             chain = o.trust[2] if lifted_here else [bid]
             # trust rules apply to what remains unproven at a root
             trust = None
-            if (isroot or bid == "formats::parse_with_parser") and o.lift is not None:
+            if (isroot or bid in DRIVERS) and (o.lift is not None or o.raw):
                 lf = o.lift
                 cons = None
-                if lf[0] == "conj":
+                if o.raw:
+                    cons = o.raw
+                elif lf[0] == "conj":
                     cons = lf[1]
                 elif lf[0] == "lifted" and lf[1].kind == "conj":
                     cons = lf[1].parts[0]
@@ -136,12 +242,39 @@ def run_scope(chk, scope, roots, floor_roots, floor_bodies, floor_sinks, reviewe
     reviewed = {}
     try:
         for e in load_table(reviewed_file):
-            if e.get("property") in (None, chk.prop):
+            if chk.prop in e.get("properties", []) or e.get("property") == chk.prop:
                 reviewed[e["key"]] = (e.get("count", 1), e["reason"])
     except FileNotFoundError:
         pass
     n_trusted = 0
+    import re as _re
     for ident, rec in sites.items():
+        # T4: Regex::new(<literal>) in a lazy static initialiser
+        if rec["fails"] and rec["cls"] == "S4" and rec["origin"].endswith("::__static_ref_initialize") and rec["desc"].startswith("unwrap(new(&*'"):
+            ob = f.bodies[rec["origin"]]
+            pats = [_regex_literal(ob)]
+            ok = False
+            if len(pats) == 1 and pats[0] is not None:
+                try:
+                    _re.compile(pats[0])
+                    ok = regex_groups(pats[0]) is not None
+                except _re.error:
+                    ok = False
+            if ok:
+                rec["trusted"].append((rec["origin"], [rec["origin"]], "T4"))
+                rec["fails"] = []
+        # D5/R-regex: caps.get(k).unwrap() on a capture group that participates in every match
+        m = _re.match(r"^unwrap\(get\(&.*, (\d+)\)\)$", rec["desc"]) if rec["fails"] and rec["cls"] == "S4" else None
+        if m:
+            ob = f.bodies[rec["origin"]]
+            statics = regex_statics_in(f, ob)
+            if len(statics) == 1:
+                pat = next(iter(statics.values()))
+                groups = regex_groups(pat)
+                k = int(m.group(1))
+                if groups is not None and groups.get(k) is True:
+                    rec["trusted"].append((rec["origin"], [rec["origin"]], "D5-regex"))
+                    rec["fails"] = []
         if not rec["fails"]:
             n_trusted += 1
             rules["trusted:" + rec["trusted"][0][2]] += 1
